@@ -510,6 +510,32 @@ func C20(c *core.Ctx) {
 			}
 		}
 	}
+	// deliveries of the largest size the client's 16 KiB ring accepts (ring size
+	// minus one 8 KiB read block) and just below, then a small one
+	if c.NShards <= 1 || c.Shard == 0 {
+		all := []cop{{kind: "api:sub", filters: []string{"a"}, qoss: []byte{1}}, {kind: "srv:suback"}}
+		hist := []int{0, 1}
+		for i, total := range []int{8190, 8192, 8191, 8192} {
+			if i%2 == 0 {
+				all = append(all, cop{kind: "srv:pub", topic: "a", qos: 0, payload: big(total-6, byte(i))})
+			} else {
+				all = append(all, cop{kind: "srv:pub", topic: "a", qos: 1, id: uint16(2000 + i), payload: big(total-8, byte(i))})
+			}
+			hist = append(hist, len(all)-1)
+		}
+		all = append(all, cop{kind: "srv:pub", topic: "a", qos: 0, payload: "small"})
+		hist = append(hist, len(all)-1)
+		v, _, steps := runDispatch(all, hist, false)
+		c.Rep.Evaluations++
+		c.Rep.Executions++
+		c.Rep.States++
+		c.Rep.Transitions += int64(steps)
+		if v != "" {
+			if c.Violate("C20 framing :: "+violClass(v), core.Replay{Scenario: "framing: deliveries of 8190, 8192, 8191, 8192 bytes (the largest packet a 16 KiB ring takes is 8192 bytes)", Message: v}) {
+				return
+			}
+		}
+	}
 	c.Rep.Scenarios++
 	ops := dispatchOps(c.Thorough())
 	overlapKnown = c.Known[KnownOverlap]
